@@ -50,6 +50,36 @@ func (p *posSeeker) Seek(off int64, whence int) (int64, error) {
 	return n, err
 }
 
+// posByteSeeker / posBytePlain additionally offer io.ByteReader, as *bytes.Reader and bufio.Reader do:
+// the library then reads varints through the source's own ReadByte.
+type posByteSeeker struct{ posSeeker }
+
+func (p *posByteSeeker) ReadByte() (byte, error) {
+	var b [1]byte
+	n, err := p.posSeeker.Read(b[:])
+	if n == 1 {
+		return b[0], nil
+	}
+	if err == nil {
+		err = io.ErrNoProgress
+	}
+	return 0, err
+}
+
+type posBytePlain struct{ posPlain }
+
+func (p *posBytePlain) ReadByte() (byte, error) {
+	var b [1]byte
+	n, err := p.posPlain.Read(b[:])
+	if n == 1 {
+		return b[0], nil
+	}
+	if err == nil {
+		err = io.ErrNoProgress
+	}
+	return 0, err
+}
+
 type posPlain struct {
 	r       io.Reader
 	maxRead int64
@@ -116,7 +146,7 @@ func runC14(t *mon.T, raw json.RawMessage) {
 			strings = append(strings, s)
 		}
 	}
-	sources := []string{"bytes.Reader", "plain io.Reader", "os.File", "Reader.DataReader", "bufio.Reader", "stutter reader", "seeker, data+EOF"}
+	sources := []string{"bytes.Reader", "plain io.Reader", "os.File", "Reader.DataReader", "bufio.Reader", "stutter reader", "seeker, data+EOF", "seeker+ByteReader", "plain+ByteReader"}
 	var opts []carv2.Option
 	if d.TrustedCAR {
 		opts = append(opts, carv2.WithTrustedCAR(true))
@@ -137,6 +167,12 @@ func runC14(t *mon.T, raw json.RawMessage) {
 			case "bufio.Reader":
 				p := &posPlain{r: bytes.NewReader(file)}
 				src, maxRead = bufio.NewReaderSize(p, 16), func() int64 { return p.maxRead - 16 } // the buffer may read ahead by its size
+			case "seeker+ByteReader":
+				p := &posByteSeeker{posSeeker{rs: bytes.NewReader(file)}}
+				src, maxRead = p, func() int64 { return p.maxRead }
+			case "plain+ByteReader":
+				p := &posBytePlain{posPlain{r: bytes.NewReader(file)}}
+				src, maxRead = p, func() int64 { return p.maxRead }
 			case "seeker, data+EOF":
 				p := &posSeeker{rs: lab.EOFSeeker{R: bytes.NewReader(file)}}
 				src, maxRead = p, func() int64 { return p.maxRead }
